@@ -469,6 +469,23 @@ class WsgiApplication(HttpBase):
 
         self.event_manager.fire_event('wsgi_call', initial_ctx)
 
+        # whatever leaves this function as an exception (eg. the client went
+        # away while the request was being read) goes to the gateway. the
+        # context still gets closed.
+        open_ctx = [initial_ctx]
+        try:
+            return self.__handle_rpc(initial_ctx, open_ctx, req_env,
+                                                                 start_response)
+
+        except BaseException:
+            try:
+                open_ctx[-1].close()
+            except Exception as e:
+                logger.exception(e)
+
+            raise
+
+    def __handle_rpc(self, initial_ctx, open_ctx, req_env, start_response):
         # a request that says it's too long is refused right away, whether or
         # not the protocol gets to look at its body.
         if self.__get_declared_length(req_env) > self.max_content_length:
@@ -482,6 +499,7 @@ class WsgiApplication(HttpBase):
 
         contexts = self.generate_contexts(initial_ctx, in_string_charset)
         p_ctx, others = contexts[0], contexts[1:]
+        open_ctx.append(p_ctx)
 
         # TODO: rate limiting
         p_ctx.active = True
